@@ -44,7 +44,7 @@ SAN_ENV = {
     "tsan": {"TSAN_OPTIONS": "halt_on_error=0:log_path={log}.tsan:second_deadlock_stack=1:history_size=4"},
 }
 
-FRAME_RE = re.compile(r"^\s+#\d+\s+0x[0-9a-f]+\s+(?:in\s+)?(.+?)\s+(/\S+?):(\d+)")
+FRAME_RE = re.compile(r"^\s+#\d+\s+(?:0x[0-9a-f]+\s+)?(?:in\s+)?(.+?)\s+(/[^\s:]+):(\d+)")
 
 
 def _frames(block_lines):
@@ -57,7 +57,7 @@ def _frames(block_lines):
         fn, path = m.group(1), m.group(2)
         fn = re.sub(r"\(.*$", "", fn)          # drop argument list
         fn = re.sub(r"<.*>", "<>", fn)          # drop template arguments
-        if "/src/" in path and "/harness/" not in path and "/model/" not in path and "/verif/" not in path:
+        if path.startswith(B.REPO.rstrip("/") + "/src/") or (os.environ.get("VP_RUN_REPO") and path.startswith(os.environ["VP_RUN_REPO"].rstrip("/") + "/src/")):
             out.append((fn, os.path.basename(path)))
     return out
 
